@@ -18,6 +18,12 @@ from .monitors import (bits_equal, check_array_disk, check_array_readme,
 REJECT = object()
 
 
+class Partial:
+    """The call must raise, and afterwards the array must hold `state` (C09: original + completed chunks)."""
+    def __init__(self, state):
+        self.state = state
+
+
 class Either:
     """The statement does not fix whether the call is accepted; if it raises the state must be
     unchanged, otherwise the state must be `accepted`."""
@@ -26,11 +32,11 @@ class Either:
 
 # compact alphabet for the bounded-exhaustive part
 ALPHABET = ['app1', 'app2x', 'applist', 'appscalar', 'app0', 'iter2', 'iter0',
-            'itergen', 'set', 'trunc0', 'trunc1', 'truncm1', 'truncbelow', 'trunclen',
+            'itergen', 'set', 'ctx:app1+app1', 'trunc0', 'trunc1', 'truncm1', 'truncbelow', 'trunclen',
             'truncstr', 'badshape', 'badrank', 'modecycle', 'reopen']
 # additional ops for long random histories
-EXTRA = ['app_zerod', 'setscalar', 'trunclen1', 'truncfloat', 'truncmid', 'truncneg2', 'app3',
-         'recreate', 'recreate_fill', 'md_set', 'md_pop', 'md_clear', 'itergen3']
+EXTRA = ['ctx:app1+app1+app1', 'ctx:set+iter2', 'ctx:applist+app2x', 'ctx:app0+app1', 'ctx:set+app3', 'app_zerod', 'iterfail_shape', 'iterfail_raise', 'iterfail_first', 'setscalar', 'trunclen1', 'truncfloat', 'truncmid', 'truncneg2', 'app3',
+         'recreate', 'recreate_fill', 'md_set', 'md_pop', 'md_clear', 'itergen3', 'copy', 'copycast']
 STARTS = [(0,), (3,), (0, 2), (2, 2), (2, 1, 3)]
 
 
@@ -52,6 +58,24 @@ def build(op, ref, rng, meta):
     def rows(k):
         return gens.random_values(rng, dtype, (k,) + trail)
 
+    if op.startswith('ctx:'):
+        # several valid operations performed inside ONE open_array() context of the same object
+        subs = op[4:].split('+')
+        cur, dos = ref, []
+        for sop in subs:
+            e, d_ = build(sop, cur, rng, meta)
+            if e is REJECT or isinstance(e, (Partial, Either)):
+                raise ValueError(f'ctx: only valid sub-operations, not {sop}')
+            cur = e
+            dos.append(d_)
+
+        def do(D, a, p):
+            with a.open_array():
+                for d_ in dos:
+                    a = d_(D, a, p)
+            return a
+        return cur, do
+
     if op in ('app1', 'app3'):
         x = rows(1 if op == 'app1' else 3)
         return concat(ref, x), lambda D, a, p: (a.append(x), a)[1]
@@ -69,6 +93,21 @@ def build(op, ref, rng, meta):
         x = np.array(7, dtype=dtype)
         acc = concat(ref, np.array([7], dtype=dtype)) if trail == () else ref
         return (Either(acc) if trail == () else REJECT), lambda D, a, p: (a.append(x), a)[1]
+    if op in ('iterfail_shape', 'iterfail_raise', 'iterfail_first'):
+        good = rows(2)
+        bad = np.zeros((1,) + (trail[:-1] + (trail[-1] + 1,) if trail else (2,)), dtype=dtype)
+        if op == 'iterfail_shape':
+            seq, done = [good, bad, good], 1
+        elif op == 'iterfail_first':
+            seq, done = [bad, good], 0
+        else:
+            seq, done = None, 1
+
+        def gen():
+            yield good
+            raise RuntimeError('source failed')
+        exp = Partial(concat(ref, good) if done else ref)
+        return exp, lambda D, a, p: (a.iterappend(iter(seq) if seq is not None else gen()), a)[1]
     if op == 'app0':
         x = np.zeros((0,) + trail, dtype=dtype)
         return ref, lambda D, a, p: (a.append(x), a)[1]
@@ -126,6 +165,25 @@ def build(op, ref, rng, meta):
         return ref, do
     if op == 'reopen':
         return ref, lambda D, a, p: D.Array(p, accessmode='r+')
+    if op == 'copy':
+        def do(D, a, p):
+            q = p.parent / (p.name + 'c')
+            return a.copy(q, accessmode='r+', chunklen=rng.choice([1, 2, None if ref.size < 50 else 3]))
+        do.newpath = True
+        return ref, do
+    if op == 'copycast':
+        tgt = gens.dt(rng.choice(gens.T13), rng.choice(gens.BO))
+        if ref.dtype.kind == 'c' and tgt.kind != 'c' or tgt.kind in 'iu' or ref.dtype.kind in 'iu' and tgt.kind in 'iu':
+            tgt = ref.dtype.newbyteorder('S') if ref.dtype.itemsize > 1 else ref.dtype
+        if ref.dtype.kind in 'iu' and tgt.kind in 'fc' or ref.dtype.kind == tgt.kind or ref.dtype.kind == 'f' and tgt.kind == 'c':
+            pass
+        new = ref.astype(tgt)
+
+        def do(D, a, p):
+            q = p.parent / (p.name + 'k')
+            return a.copy(q, dtype=tgt, accessmode='r+', chunklen=2)
+        do.newpath = True
+        return new, do
     if op == 'recreate':
         nt, bo = rng.choice(gens.T13), rng.choice(gens.BO)
         shape = rng.choice([(0,), (4,), (1, 2), (3, 2), (0, 3), (2, 2, 2)])
@@ -200,11 +258,22 @@ def run(env, res, case, monitors):
                 raised = None
                 try:
                     a = do(D, a, path)
+                    if getattr(do, 'newpath', False):
+                        path = a.path
+                        datafile = path / 'arrayvalues.bin'
+                        old_bytes = b''
                 except Exception as e:   # includes StopIteration etc.
                     raised = e
                 new_bytes = datafile.read_bytes() if datafile.exists() else None
                 if isinstance(expected, Either):
                     expected = REJECT if raised is not None else expected.accepted
+                if isinstance(expected, Partial):
+                    res.count('mon.failing_appends')
+                    if raised is None:
+                        if 'model' in monitors or 'reject' in monitors:
+                            res.fail(f'partial:no-raise:{op}', f'step {i} {op}: failing iterappend returned normally', step=i, op=op)
+                    raised = None
+                    expected = expected.state
                 if expected is REJECT:
                     res.count('mon.rejected_calls')
                     if 'reject' in monitors:
@@ -240,7 +309,7 @@ def run(env, res, case, monitors):
                         return
                     changed = not bits_equal(expected, ref)
                     if 'prefix' in monitors and new_bytes is not None:
-                        if op.startswith(('app', 'iter')):
+                        if op.startswith(('app', 'iter', 'ctx:app', 'ctx:iter')) and 'set' not in op:
                             res.count('mon.prefix_append')
                             if not new_bytes.startswith(old_bytes):
                                 res.fail('prefix:append-altered-earlier-bytes',
